@@ -5,7 +5,7 @@
    inline collision groups nested to any depth, external collision groups, list mode), root and
    non-root, with and without sibling link, elements from {Uint8/16/32/64Value, StringValue,
    SlabIDStorable, SomeStorable (both encodings)}.  Slabs with inlined children (and compact
-   maps) are covered by the Go-side oracles of `harness codec` only. *)
+   maps) are the subject of props/C07_inlined.v and C07_compact.v over theories/CodecInl.v. *)
 From Coq Require Import ZArith NArith List Bool.
 From AtreeGen Require Import Consts CodecConsts.
 From AtreeModel Require Import Codec.
